@@ -94,7 +94,7 @@ def near_point (m, rng_pick, d, direction):
     return None, None
 # end def near_point
 
-FD_KEY = 'near-H-finite-difference-step'
+FD_KEY = 'near-field-finite-difference-step'
 
 def h_key (m, x, Hc, H, scale = 1.0):
     """ mechanism key of a deviation of the reported H (Hc) from the exact curl H of the solved currents. Known
@@ -110,6 +110,19 @@ def h_key (m, x, Hc, H, scale = 1.0):
         return FD_KEY
     return 'near-H'
 # end def h_key
+
+def e_key (m, x, Ec, E, scale = 1.0):
+    """ the same for E: the program reports the voltage across a virtual dipole of 0.001 wavelengths centred on the
+        point (vector potential at the centre, scalar potential at its two ends) over its length; a deviation above
+        1 % is the known finding only if the reported E equals that quantity formed from the exact potentials
+        (2.5e-3: the program's constant 4.77783352 is 0.14 % off eta / 8 pi^2) """
+    if np.linalg.norm (Ec - E) <= 0.01 * np.linalg.norm (E):
+        return 'near-E'
+    Ef = nfref.e_virtual_dipole (m, x, 0.0005 * gen.C_MHZ / m.f) * scale
+    if np.linalg.norm (Ec - Ef) <= 2.5e-3 * np.linalg.norm (E):
+        return FD_KEY
+    return 'near-E'
+# end def e_key
 
 def check (c):
     spec = c if 'geo' in c else make (c)
@@ -164,7 +177,7 @@ def check (c):
         classes.add (kind)
         dE = np.linalg.norm (Ec - E) / np.linalg.norm (E)
         dH = np.linalg.norm (Hc - H) / np.linalg.norm (H)
-        judge ('E.' + kind, dE, 0.01, 'E at %s (%.2f segments from the nearest conductor) deviates %.3g from the field of the solved currents' % (np.round (x, 4), nfref.min_distance (m, x), dE), key = 'near-E')
+        judge ('E.' + kind, dE, 0.01, 'E at %s (%.2f segments from the nearest conductor) deviates %.3g from the field of the solved currents' % (np.round (x, 4), nfref.min_distance (m, x), dE), key = e_key (m, x, Ec, E, scale))
         dist = nfref.min_distance (m, x)
         # close to short segments the finite-difference step of the magnetic field exceeds the 1 % (known finding,
         # classified by h_key with a central difference of the exact vector potential); any other error is a violation
@@ -231,11 +244,11 @@ def check (c):
         common.guarded (lambda: m.compute_near_field (list (x), [1.0, 1.0, 1.0], [1, 1, 1], pwr = other), 'compute_near_field')
         Ec = np.asarray (m.e_field [0])
         s2 = np.sqrt (other / (pwr if pwr is not None else float (m.power)))
-        judge ('E.level', np.linalg.norm (Ec - E * s2) / np.linalg.norm (E * s2), 0.01, 'E at %s for %.3g W deviates from the field of the solved currents scaled to that level' % (np.round (x, 4), other), key = 'near-E')
+        judge ('E.level', np.linalg.norm (Ec - E * s2) / np.linalg.norm (E * s2), 0.01, 'E at %s for %.3g W deviates from the field of the solved currents scaled to that level' % (np.round (x, 4), other), key = e_key (m, x, Ec, E * s2, scale * s2))
         kw = {} if pwr is None else dict (pwr = pwr)
         common.guarded (lambda: m.compute_near_field (list (x), [1.0, 1.0, 1.0], [1, 1, 1], **kw), 'compute_near_field')
         Ec, Hc = np.asarray (m.e_field [0]), np.asarray (m.h_field [0])
-        judge ('E.repeat', np.linalg.norm (Ec - E) / np.linalg.norm (E), 0.01, 'E at %s, asked again after a request with another power level, deviates from the field of the solved currents' % (np.round (x, 4),), key = 'near-E')
+        judge ('E.repeat', np.linalg.norm (Ec - E) / np.linalg.norm (E), 0.01, 'E at %s, asked again after a request with another power level, deviates from the field of the solved currents' % (np.round (x, 4),), key = e_key (m, x, Ec, E, scale))
         judge ('H.repeat', np.linalg.norm (Hc - H) / np.linalg.norm (H), 0.01, 'H at %s, asked again after a request with another power level, deviates from the field of the solved currents' % (np.round (x, 4),)
               , key = h_key (m, x, Hc, H, scale))
     # ---- a request written with whole numbers only (API: python ints for start, increment and count) is the
@@ -252,7 +265,7 @@ def check (c):
         dH = np.linalg.norm (Hc - Hi) / max (np.linalg.norm (Hi), 1e-3 * np.linalg.norm (Ei) / 376.73)
         # (whole-number points fall on symmetry planes and on the ground plane, where a field can vanish identically:
         # then compared on the scale of 376.7 ohm x |H|)
-        judge ('E.int', np.linalg.norm (Ec - Ei) / max (np.linalg.norm (Ei), 1e-3 * 376.73 * np.linalg.norm (Hi)), 0.01, 'E at %s (request in whole numbers) deviates from the field of the solved currents' % (xi,), key = 'near-E')
+        judge ('E.int', np.linalg.norm (Ec - Ei) / max (np.linalg.norm (Ei), 1e-3 * 376.73 * np.linalg.norm (Hi)), 0.01, 'E at %s (request in whole numbers) deviates from the field of the solved currents' % (xi,), key = e_key (m, np.array (xi, float), Ec, Ei))
         judge ('H.int', dH, 0.01, 'H at %s (request in whole numbers) deviates %.3g from the field of the solved currents' % (xi, dH)
               , key = h_key (m, np.array (xi, float), Hc, Hi))
         break
